@@ -46,6 +46,10 @@ pub trait DynW {
     fn write(&mut self, val: String);
     fn stats(&self) -> [usize; 6];
     fn failed(&self) -> bool;
+    /// Writer-specific extra observations (e.g. Summarize's scenario statistics).
+    fn extra(&self) -> Value {
+        Value::Null
+    }
 }
 
 pub struct BoxW(pub Box<dyn DynW>);
@@ -191,6 +195,73 @@ where
     }
 }
 
+/// Adapter for `Summarize` (exposes scenario / step statistics as `extra`).
+struct Summ(writer::Summarize<BoxW>);
+impl DynW for Summ {
+    fn handle(&mut self, ev: Ev) {
+        now(self.0.handle_event(ev, &cli::Empty));
+    }
+    fn write(&mut self, val: String) {
+        now(Arbitrary::<EvW, String>::write(&mut self.0, val));
+    }
+    fn stats(&self) -> [usize; 6] {
+        stats_of(&self.0)
+    }
+    fn failed(&self) -> bool {
+        self.0.execution_has_failed()
+    }
+    fn extra(&self) -> Value {
+        let sc = self.0.scenarios_stats();
+        let st = self.0.steps_stats();
+        json!({
+            "sc": [sc.passed, sc.skipped, sc.failed, sc.retried],
+            "st": [st.passed, st.skipped, st.failed, st.retried],
+        })
+    }
+}
+
+/// Shared byte sink.
+#[derive(Clone, Default)]
+pub struct Sink(pub Rc<RefCell<Vec<u8>>>);
+impl std::io::Write for Sink {
+    fn write(&mut self, buf: &[u8]) -> std::io::Result<usize> {
+        self.0.borrow_mut().extend_from_slice(buf);
+        Ok(buf.len())
+    }
+    fn flush(&mut self) -> std::io::Result<()> {
+        Ok(())
+    }
+}
+
+pub fn libtest_cli() -> writer::libtest::Cli {
+    writer::libtest::Cli {
+        format: Some(writer::libtest::Format::Json),
+        show_output: false,
+        report_time: None,
+        nightly: None,
+    }
+}
+
+/// Adapter for `Libtest` (raw or normalized): own Cli, no `Arbitrary`.
+struct Lib<T>(T, Log);
+impl<T> DynW for Lib<T>
+where
+    T: Writer<EvW, Cli = writer::libtest::Cli> + Stats<EvW>,
+{
+    fn handle(&mut self, ev: Ev) {
+        now(self.0.handle_event(ev, &libtest_cli()));
+    }
+    fn write(&mut self, val: String) {
+        self.1.borrow_mut().push(json!({"unsupported_write": val}));
+    }
+    fn stats(&self) -> [usize; 6] {
+        stats_of(&self.0)
+    }
+    fn failed(&self) -> bool {
+        self.0.execution_has_failed()
+    }
+}
+
 fn ids(v: &Value) -> Vec<u64> {
     v.as_array().map(|a| a.iter().filter_map(Value::as_u64).collect()).unwrap_or_default()
 }
@@ -252,6 +323,21 @@ pub fn build(p: &Value, log: &Log) -> BoxW {
     }
     if let Some(q) = o.get("discard_stats") {
         return BoxW(Box::new(Full(build(q, log).discard_stats_writes())));
+    }
+    if let Some(q) = o.get("summarize") {
+        return BoxW(Box::new(Summ(writer::Summarize::new(build(q, log)))));
+    }
+    if o.contains_key("libtest") {
+        return BoxW(Box::new(Lib(
+            writer::Libtest::<EvW, Sink>::raw(Sink::default()),
+            Rc::clone(log),
+        )));
+    }
+    if o.contains_key("norm_libtest") {
+        return BoxW(Box::new(Lib(
+            writer::Libtest::<EvW, Sink>::new(Sink::default()),
+            Rc::clone(log),
+        )));
     }
     if let Some(q) = o.get("normalize") {
         return BoxW(Box::new(Full(build(q, log).normalized::<EvW>())));
